@@ -98,6 +98,10 @@ func (e *Env) modelDecodeOne(l *facts.Level, rule string) *decodeOneModel {
 	}
 	who = fname(m.Fn)
 	pos := e.P.Pos(m.Fn.Pos())
+	if l.Names == nil {
+		c.Undecided(rule, who, pos, l.NamesProblem)
+		return m
+	}
 	sf := e.P.SSAFunc(m.Fn)
 	leaves, err := ir.Leaves(sf, ir.LeafOptions{Forward: true, Effects: true, Inline: e.inlineHelpers()})
 	if err != nil {
@@ -584,6 +588,8 @@ func (e *Env) decodeCallAllowed(t *ir.Term, l *facts.Level) bool {
 		switch fn.FullName() {
 		case "strings.Split", "strings.SplitN", "github.com/goark/errs.Wrap", "github.com/goark/errs.WithContext", "github.com/goark/errs.Is":
 			return true
+		case "fmt.Errorf", "errors.New", "github.com/goark/errs.WithCause":
+			return true // building an error value does not feed any comparison of the token (what may be attached is C11's business)
 		}
 		if fn.Pkg() == l.Pkg.Types {
 			sig := fn.Type().(*types.Signature)
